@@ -268,7 +268,7 @@ func main() {
 		}
 	}
 	runBF(ctx, bfs)
-	n := ctx.Scale(2000, 60000)
+	n := ctx.Scale(1500, 60000)
 	batch := 100
 	for done := 0; done < n; done += batch {
 		var cases []*txsim.Case
@@ -281,6 +281,9 @@ func main() {
 	var chains []*txsim.ChainCase
 	for i := 0; i < ctx.Scale(150, 10000); i++ {
 		chains = append(chains, txsim.GenChain(rc))
+	}
+	for i := 0; i < ctx.Scale(60, 4000); i++ {
+		chains = append(chains, txsim.GenChainPoS(rc))
 	}
 	txsim.RunChains(ctx, "C08", chains)
 	ctx.Finish("stream 1: "+txsim.Rule+txsim.ChainRule+"; stream 2: parent headers built with block.Builder, fork height in {0,1,5,1000,random,never}, parent number at / before / after the fork, "+
